@@ -542,7 +542,7 @@ pub fn hex_bolt(
                     .sqrt(),
                 head_height,
                 segments,
-                center,
+                false,
             );
     }
     let mut bolt = rod + head;
@@ -610,7 +610,7 @@ pub fn hex_nut(
     let thread_info = m_table_lookup(m);
     let nut_width = thread_info["nut_width"];
 
-    let mut nut_tap = tap(m, height + 20.0, segments, left_hand_thread, center);
+    let mut nut_tap = tap(m, height + 20.0, segments, left_hand_thread, false);
     nut_tap = translate!([0.0, 0.0, -10.0], nut_tap;);
 
     let nut_blank =
@@ -627,7 +627,7 @@ pub fn hex_nut(
                 (0.25 * nut_width * 0.25 * nut_width + 0.5 * nut_width * 0.5 * nut_width).sqrt(),
                 height,
                 segments,
-                center,
+                false,
             );
     }
 
